@@ -37,12 +37,15 @@ theorem wire_layout (max : Nat) (m : Msg) :
     wire max m =
       (let content := UInt8.ofNat (0x90 + (specLayout m).length) :: encList (specLayout m)
        if content.length > max then none else some (encInt content.length ++ content)) := by
-  sorry
+  have hl := specLayout_length_le m
+  rw [← layout_is_spec] at hl ⊢
+  have h16 : (layout m).length < 16 := by omega
+  simp [wire, encodeFrameBytes, body, enc, arrHdr, h16]
 
 /-- The length prefix written by the encoder decodes to the length. -/
 theorem prefix_roundtrip (n : Nat) (h : n < 2147483648) (r : Bytes) :
-    runStream (decIntBits 32) (encInt n ++ r) = ⟨.ok (n : Int), r⟩ := by
-  sorry
+    runStream (decIntBits 32) (encInt n ++ r) = ⟨.ok (n : Int), r⟩ :=
+  decInt32_legal (n : Int) (encInt n) (encInt_legal (n : Int) (by omega)) (by omega) r
 
 /-- Any legal encoding of any value — every integer width that fits, every
     string / bin / array / map header width — is decoded to that value, and
@@ -121,6 +124,55 @@ theorem frame_accepts_any_legal (max : Nat) (ctx : Ctx) (m : Msg) (extras : List
     (bs r : Bytes) (h : LegalFrame m extras bs) (hd : Decodable ctx m)
     (hmax : bs.length ≤ max) (hsmall : bs.length < 2147483648) :
     nextFrame max ctx (bs ++ r) = ⟨.ok m, r⟩ := by
-  sorry
+  obtain ⟨pre, body, hlen, hlist, hpre, hext, rfl⟩ := h
+  obtain ⟨b1, ex, rfl, h1, h2⟩ := legalList_append_inv _ _ _ hlist
+  have hpl := hpre.length_pos
+  have hxl := legalList_length_le _ _ h2
+  simp only [List.length_append, List.length_cons] at hmax hsmall hlen
+  have hn3 : 3 ≤ (readerLayout m ++ extras).length := by
+    cases m <;> simp [readerLayout] <;> omega
+  apply nextFrame_legal max ctx pre (b1 ++ ex) ex r _ _ (by omega)
+    (by simpa using hlen) hpre (by simp <;> omega) (by simp <;> omega) (by simp)
+  rw [List.append_assoc]
+  cases m with
+  | call seq name arg tags =>
+    obtain ⟨hfind, hseq⟩ := hd
+    have hrl : readerLayout (.call seq name arg tags) =
+        .int 0 :: .int seq :: .str name :: arg :: tagElems tags := by cases tags <;> rfl
+    rw [hrl] at h1 ⊢
+    have hb1 := legalList_length_le _ _ h1
+    refine decodeRPC_call ctx _ _ seq name arg tags b1 (ex ++ r) h1 (by simp <;> omega) hfind hseq
+      (by simp <;> omega) ?_ ?_
+    · rintro rfl; simp [hext rfl, tagElems]
+    · intro h; cases tags with
+      | none => exact absurd rfl h
+      | some t => simp [tagElems] <;> omega
+  | callc seq ct name arg tags =>
+    obtain ⟨hfind, hc, hs1, hs2, hc1, hc2⟩ := hd
+    have hrl : readerLayout (.callc seq ct name arg tags) =
+        .int 4 :: .int seq :: .int ct :: .str name :: arg :: tagElems tags := by cases tags <;> rfl
+    rw [hrl] at h1 ⊢
+    refine decodeRPC_callc ctx _ _ seq ct name arg tags b1 (ex ++ r) h1 (by simp <;> omega) hfind hc
+      ⟨hs1, hs2⟩ ⟨hc1, hc2⟩ (by simp <;> omega) ?_ ?_
+    · rintro rfl; simp [hext rfl, tagElems]
+    · intro h; cases tags with
+      | none => exact absurd rfl h
+      | some t => simp [tagElems] <;> omega
+  | resp seq e res =>
+    obtain ⟨⟨ct, hlook, hc⟩, ⟨s, rfl⟩, hseq⟩ := hd
+    exact decodeRPC_resp ctx _ _ seq ct s res b1 (ex ++ r) h1 (by simp <;> omega) hlook hc hseq
+      (by simp [readerLayout] <;> omega)
+  | notify name arg tags =>
+    have hrl : readerLayout (.notify name arg tags) =
+        .int 2 :: .str name :: arg :: tagElems tags := by cases tags <;> rfl
+    rw [hrl] at h1 ⊢
+    refine decodeRPC_notify ctx _ _ name arg tags b1 (ex ++ r) h1 (by simp <;> omega) hd
+      (by simp <;> omega) ?_ ?_
+    · rintro rfl; simp [hext rfl, tagElems]
+    · intro h; cases tags with
+      | none => exact absurd rfl h
+      | some t => simp [tagElems] <;> omega
+  | cancel seq name =>
+    exact decodeRPC_cancel ctx _ _ seq name b1 (ex ++ r) h1 hd (by simp [readerLayout] <;> omega)
 
 end FmpRpc.C02
